@@ -195,6 +195,8 @@ type shape struct {
 	feats  []string
 	slots  int
 	nested int // arrows that are not rule-level
+	family bool
+	fixed  []string // family shapes: the only labelings to use (nil = all canonical labelings)
 	// selection state
 	nextLabel int
 	done      bool
@@ -289,8 +291,73 @@ func shapes(W int) []*shape {
 			}
 		}
 	}
+	out = append(out, familyShapes()...)
 	for _, sh := range out {
 		finishShape(sh)
+	}
+	return out
+}
+
+// familyShapes: "two extracted constructs over the same element". syntax.Expand turns every list
+// into a nonterminal of its own, named after the element (arrows do not take part in the name)
+// and shared between occurrences that are equal. These grammars contain two lists over the same
+// element that differ only in the node name of an arrow inside the element (or in whether the
+// element is annotated at all, or in an inner arrow of a longer element), in two alternatives
+// and within one rule, for + * and both separator forms, over a terminal and over an annotated
+// nonterminal. They are heavier than the weight bound of the general enumeration, so they are
+// listed explicitly (concrete terminals) and form the class "family:same-element-extracted-twice",
+// visited in the first round. (Optionals and nested choices are expanded in place, never
+// extracted, so they have no such family.)
+func familyShapes() []*shape {
+	type lk struct {
+		plus bool
+		sep  byte
+	}
+	kinds := []lk{{true, 0}, {false, 0}, {true, 'b'}, {false, 'b'}}
+	tok := func(ch byte) *extsem.Expr { return &extsem.Expr{Kind: extsem.KTok, Ch: ch} }
+	arrow := func() *extsem.Arrow { return &extsem.Arrow{} }
+	grp := func(a *extsem.Arrow, parts ...*extsem.Expr) *extsem.Expr {
+		return &extsem.Expr{Kind: extsem.KGroup, Alts: []*extsem.Alt{{Parts: parts, Arrow: a}}}
+	}
+	var out []*shape
+	for variant := 0; variant < 6; variant++ {
+		for _, k := range kinds {
+			list := func(sub *extsem.Expr) *extsem.Expr {
+				return &extsem.Expr{Kind: extsem.KList, Sub: sub, Plus: k.plus, Sep: k.sep}
+			}
+			delim := byte('b')
+			if k.sep != 0 {
+				delim = 'c'
+			}
+			g := &extsem.Grammar{NTs: []*extsem.Nonterm{{Name: "S"}}}
+			elem := func() *extsem.Expr { return tok('a') }
+			if variant == 4 {
+				elem = func() *extsem.Expr { return &extsem.Expr{Kind: extsem.KRef, NT: 1} }
+				g.NTs = append(g.NTs, &extsem.Nonterm{Name: "Y", Default: arrow(), Alts: []*extsem.Alt{{Parts: []*extsem.Expr{tok('a')}}}})
+			}
+			l1 := list(grp(arrow(), elem()))
+			l2 := list(grp(arrow(), elem()))
+			switch variant {
+			case 0, 4: // S : (e -> N1)K d | d (e -> N2)K
+				g.NTs[0].Alts = []*extsem.Alt{{Parts: []*extsem.Expr{l1, tok(delim)}}, {Parts: []*extsem.Expr{tok(delim), l2}}}
+			case 1: // S : (e -> N1)K d (e -> N2)K
+				g.NTs[0].Alts = []*extsem.Alt{{Parts: []*extsem.Expr{l1, tok(delim), l2}}}
+			case 2: // S : (e -> N1)K d | d eK           (annotated and bare element)
+				g.NTs[0].Alts = []*extsem.Alt{{Parts: []*extsem.Expr{l1, tok(delim)}}, {Parts: []*extsem.Expr{tok(delim), list(elem())}}}
+			case 3: // S : ((e -> N1)K -> N2) d | d (e -> N3)K
+				g.NTs[0].Alts = []*extsem.Alt{{Parts: []*extsem.Expr{grp(arrow(), l1), tok(delim)}}, {Parts: []*extsem.Expr{tok(delim), l2}}}
+			case 5: // S : (a (a -> N1))K d | d (a (a -> N2))K   (longer element, inner arrow differs)
+				e1 := list(grp(nil, tok('a'), grp(arrow(), tok('a'))))
+				e2 := list(grp(nil, tok('a'), grp(arrow(), tok('a'))))
+				g.NTs[0].Alts = []*extsem.Alt{{Parts: []*extsem.Expr{e1, tok(delim)}}, {Parts: []*extsem.Expr{tok(delim), e2}}}
+			}
+			c := g.Clone()
+			var lab []byte
+			for _, p := range c.TermSlots() {
+				lab = append(lab, *p)
+			}
+			out = append(out, &shape{g: c, weight: 9, fixed: []string{string(lab)}, family: true})
+		}
 	}
 	return out
 }
@@ -466,6 +533,10 @@ func finishShape(sh *shape) {
 				oa(a, true)
 			}
 		}
+	}
+	if sh.family {
+		// only its own class: the general classes stay ordered by weight
+		feats = map[string]bool{"family:same-element-extracted-twice": true}
 	}
 	for f := range feats {
 		sh.feats = append(sh.feats, f)
